@@ -448,8 +448,8 @@ def roundtrip_checks(tier):
                 notes.append(case)
             except Exception as e:
                 V(case, 'saving through the convention succeeds', f'{type(e).__name__}: {e}')
-        # many time steps, long variable names: saved all the same, units in the EMS form
-        for tag, nt, tname_long, first_name in (('300-steps', 300, 'time', 'a_first'), ('long-names', 3, 'time_of_the_centre_of_the_averaging_interval', 'a_variable_with_a_name_that_is_longer_than_most')):
+        # no, one and many time steps (an empty selection in time is a dataset too), long variable names: saved all the same, units in the EMS form
+        for tag, nt, tname_long, first_name in (('no-steps', 0, 'time', 'a_first'), ('one-step', 1, 'time', 'a_first'), ('300-steps', 300, 'time', 'a_first'), ('long-names', 3, 'time_of_the_centre_of_the_averaging_interval', 'a_variable_with_a_name_that_is_longer_than_most')):
             case = f'roundtrip:cf1d:in-memory:{tag}'
             tv = numpy.datetime64('2020-01-01T00:00', 'ns') + numpy.arange(nt) * numpy.timedelta64(90, 'm')
             mem = builders.cf1d(2, 3, data_vars={first_name: (('record', 'y', 'x'), numpy.arange(nt * 6, dtype=float).reshape(nt, 2, 3))})
